@@ -6,11 +6,13 @@ Each area contributes a handler `String → List String → Option String` in Po
 -/
 import PoetryVerif.Protocol
 import PoetryVerif.Drv.VC
+import PoetryVerif.Drv.Generic
+import PoetryVerif.Drv.Marker
 
 open Poetry Poetry.Proto
 
 def handlers : List (String → List String → Option String) :=
-  [Poetry.Drv.handleVC]
+  [Poetry.Drv.handleVC, Poetry.Drv.handleGeneric, Poetry.Drv.handleMarker]
 
 def dispatch (op : String) (args : List String) : List (String → List String → Option String) → String
   | [] => "bad-op"
